@@ -109,6 +109,12 @@ Theorem rel_derel : forall n o : name,
 Proof. exact NameRel.rel_derel. Qed.
 Print Assumptions rel_derel.
 
+Theorem rel_derel_outside : forall n o : name,
+  is_subdomain n o = false ->
+  relativize n o = Ok n /\ (is_absolute n = true -> derelativize n o = Ok n).
+Proof. exact NameRel.rel_derel_outside. Qed.
+Print Assumptions rel_derel_outside.
+
 Theorem derel_rel : forall r o : name,
   Valid r -> Valid o -> is_absolute r = false -> is_absolute o = true -> Valid (r ++ o) ->
   derelativize r o = Ok (r ++ o) /\ relativize (r ++ o) o = Ok r.
